@@ -109,4 +109,32 @@ static inline void wl_dtor_exc(WList *l) { if (l->w >= 0) { Slot_dtor(&g_S0); g_
   __CPROVER_ensures(NOLOCKS(self) && hq_ok(self) && self->queueEmptyCounter == __CPROVER_old(self->queueEmptyCounter)) \
   __CPROVER_ensures(!g_exc ==> (g_dead == __CPROVER_old(g_dead) && __CPROVER_return_value == (__CPROVER_old(self->queueList.len) > 0) && (__CPROVER_old(self->queueList.w) == 0 ==> (DONE_M && self->freeList.w >= 0)))) \
   __CPROVER_ensures(g_exc ==> ((__CPROVER_old(self->queueList.w) != 0 ==> g_dead == __CPROVER_old(g_dead))))
+/* ------------------------------------------------------------------ processIf (one round) when the predicate, a listener or the copy of an item raises */
+#undef CONTRACT_HQ_doInvokeFuncWithQueuedEvent__PredV_ItemV
+#undef CONTRACT_HQ_doInvokeFuncWithQueuedEvent__PredW_ItemW
+#define PRED_BOUNDARY_EXC(KIND) \
+  __CPROVER_requires(NOLOCKS(self) && hq_ok(self) && HQ_MID(self) && self->queueEmptyCounter >= 1 && !g_exc) \
+  __CPROVER_requires(IS_WIT(item) ==> (g_kind_was == (KIND) && g_kind == (KIND) && g_pred == 0 && g_disp == 0 && ITEM_INTACT(item))) \
+  __CPROVER_assigns(ENV_FRAME(self), g_exc) \
+  __CPROVER_ensures(NOLOCKS(self) && hq_ok(self) && HQ_MID(self) && g_seq >= __CPROVER_old(g_seq)) \
+  __CPROVER_ensures(INFLIGHT_SAME(self, 0, (IS_WIT(item) ? 1 : 0))) \
+  __CPROVER_ensures(IS_WIT(item) ==> __CPROVER_return_value == g_verdict)
+#define CONTRACT_HQ_doInvokeFuncWithQueuedEvent__PredV_ItemV PRED_BOUNDARY_EXC(1)
+#define CONTRACT_HQ_doInvokeFuncWithQueuedEvent__PredW_ItemW PRED_BOUNDARY_EXC(2)
+#undef PIF_LOOP
+#define PIF_LOOP \
+  __CPROVER_assigns(it, tempList.len, tempList.w, idleList.len, idleList.w, ENV_FRAME(self), g_cur_is_w, g_cur_addr, g_exc) \
+  __CPROVER_loop_invariant(it.l == &tempList && 0 <= it.i && it.i <= tempList.len && WL_OK_M(tempList) && WL_OK_M(idleList) && !g_cur_is_w && !g_exc) \
+  __CPROVER_loop_invariant(tempList.len + idleList.len == __CPROVER_loop_entry(tempList.len)) \
+  __CPROVER_loop_invariant(NOLOCKS(self) && HQ_OK_M(self) && HQ_MID(self) && self->queueEmptyCounter >= 1) \
+  __CPROVER_loop_invariant(PIF_W && g_dead == __CPROVER_loop_entry(g_dead)) \
+  __CPROVER_decreases(tempList.len - it.i)
+#undef PIF_ROUND_CONTRACT
+#define PIF_ROUND_CONTRACT(NEXT_ASSIGNS) \
+  __CPROVER_requires(HQ_FRESH(self) && __CPROVER_is_fresh(func, sizeof(*func))) \
+  __CPROVER_requires(NOLOCKS(self) && hq_ok(self) && HQ_SMALL(self) && ALL_IN_LISTS(self) && g_pred == 0 && !g_cur_is_w && !g_exc) \
+  __CPROVER_assigns(self->queueList, self->freeList, self->queueListMutex.depth, self->freeListMutex.depth, self->queueEmptyCounter, self->queueListConditionVariable.notified, GHOSTS, g_cur_is_w, g_cur_addr, g_exc) \
+  __CPROVER_ensures(NOLOCKS(self) && hq_ok(self) && self->queueEmptyCounter == __CPROVER_old(self->queueEmptyCounter)) \
+  __CPROVER_ensures(!g_exc ==> (g_dead == __CPROVER_old(g_dead) && PIF_POST)) \
+  __CPROVER_ensures(g_exc ==> (__CPROVER_old(self->queueList.w) < 0 ==> g_dead == __CPROVER_old(g_dead)))
 #endif
